@@ -102,7 +102,7 @@ func init() {
 		Rule: "case i<P: pool value a=P[i] against every pool value b (both directions), all six relational operators and + - * / % through three operand carriers (SQL literal, variable, table cell for strings); " +
 			"non-trivial = the row's 2·P·(6+5) operator results were all obtained and checked against the algebraic laws, and at least one pair was judged against the independent coercion ladder. " +
 			"case P: Kleene AND/OR/NOT through every carrier of a ternary. cases >P: 200 sampled triples each for BETWEEN/IN/ANY/ALL/IS/CASE expansions; distinct = digest of the operand texts.",
-		Quick: len(c06Pool) + 1 + 100, Thorough: len(c06Pool) + 1 + 2500,
+		Quick: len(c06Pool) + 1 + 100, Thorough: len(c06Pool) + 1 + 15000,
 		FloorQuick: len(c06Pool), FloorThorough: len(c06Pool),
 		Assumptions: []string{
 			"the reference ladder is judged only where the manual pins the answer: odd spellings (hex, underscores, lower-case inf/nan, upper-case boolean words, padded datetimes), NaN and number-vs-non-numeric-text comparisons are checked against the algebraic laws only",
